@@ -49,6 +49,23 @@ def run(ctx):
         ctx.decide(init is not None and not eff, 'R-OWN', 'A5', init, None, f'constructor-effect-free::{cname}',
                    f'{cname}.__init__ performs no file-system mutation (running the generated darr read code never changes a file)',
                    detail='opening the array can write: ' + '; '.join(e.describe() for e in eff[:3]))
+    # the example statement reads an EXISTING sub-array of the array as it is on disk: the number of sub-arrays (and the
+    # values size) come from len(dra) / the sub-array handles, never from the ragged handle's remembered description
+    # (`RaggedArray._arrayinfo` is a dictionary filled at construction; its 'len'/'size' entries lag behind when the
+    # README is regenerated during a truncation or when another handle appended)
+    import ast as _ast
+    m_ = ctx.repo.module('readcoderaggedarray')
+    stale = []
+    for g in m_.all_funcs():
+        for n in own_nodes(g.node):
+            if isinstance(n, _ast.Subscript) and isinstance(n.value, _ast.Attribute) and n.value.attr == '_arrayinfo' and \
+                    isinstance(n.slice, _ast.Constant) and n.slice.value in ('len', 'size'):
+                stale.append((g, n))
+    ctx.decide(not stale, 'R-FLOW', 'A5', stale[0][0] if stale else m_.funcs.get('readcode'), stale[0][1] if stale else None,
+               'count-source::readcoderaggedarray',
+               'no ragged read-code generator takes the number of sub-arrays / values from the handle\'s remembered description',
+               detail=f'`{norm(stale[0][1]) if stale else ""}` is a value remembered in the handle: the example statement can ask '
+                      f'for a sub-array that no longer exists (README written during truncation, stale handle)')
     from .C06 import t0_sources
     t0_sources(ctx, 'readcodearray', 'A5')
     t0_sources(ctx, 'readcoderaggedarray', 'A5')
